@@ -33,6 +33,7 @@ type QuestionCase struct {
 	QuestionOut string   `json:"question_output"`
 	Marked      []int    `json:"marked_positions"`
 	Sealed      bool     `json:"sealed"`
+	Padded      bool     `json:"padded,omitempty"` // the answer text has surrounding white space (quoted padding or a YAML block scalar)
 	Public      string   `json:"public_key,omitempty"`
 	Private     string   `json:"private_key,omitempty"`
 }
@@ -200,7 +201,7 @@ func checkQuestion(q *QuestionCase) *h.Failure {
 	}
 	want := fmt.Sprint(correct) == fmt.Sprint(q.Marked)
 	var verr error
-	var crash string
+	var crash, sealDiff string
 	func() {
 		defer func() {
 			if r := recover(); r != nil {
@@ -215,6 +216,10 @@ func checkQuestion(q *QuestionCase) *h.Failure {
 		if err != nil {
 			verr = fmt.Errorf("model: %w", err)
 			return
+		}
+		orig := ""
+		if m.Frontmatter != nil {
+			orig = m.Frontmatter.Answer
 		}
 		if q.Sealed {
 			if err := m.Seal(q.Public); err != nil {
@@ -231,14 +236,22 @@ func checkQuestion(q *QuestionCase) *h.Failure {
 			if err := m.Unseal(); err != nil || m.IsSealed() {
 				verr = fmt.Errorf("unseal after seal failed: %v", err)
 				crash = "unseal"
+			} else if m.Frontmatter != nil && m.Frontmatter.Answer != orig {
+				sealDiff = fmt.Sprintf("the answer text was %q before sealing and is %q after unsealing", orig, m.Frontmatter.Answer)
 			}
 		}
 	}()
 	if crash != "" {
 		return mk("gopanic", "verification crashed: "+crash+" "+fmt.Sprint(verr))
 	}
+	if sealDiff != "" {
+		return mk("seal-round-trip", "sealing and unsealing a question changes its answer: "+sealDiff)
+	}
 	if strings.HasPrefix(fmt.Sprint(verr), "model:") {
 		return mk("model-rejected", "a well-formed question was rejected: "+verr.Error())
+	}
+	if q.Padded {
+		return nil // whether a padded answer text is a valid answer is not documented: only crashes and the seal round trip are checked
 	}
 	if (verr == nil) != want {
 		if want {
@@ -363,7 +376,18 @@ func TestQuestions(t *testing.T) {
 		if len(letters) == 1 && rapid.Bool().Draw(t, "single") {
 			atype = "single-choice"
 		}
-		q.Frontmatter = "type: question\ndifficulty: easy\nanswer-type: " + atype + "\nanswer: \"" + strings.Join(letters, sep) + "\"\n"
+		// the answer text as YAML gives it to the model: plain, padded inside quotes, or a block scalar (which ends in a newline)
+		ans := strings.Join(letters, sep)
+		switch rapid.IntRange(0, 4).Draw(t, "answerform") {
+		case 0:
+			q.Padded = true
+			q.Frontmatter = "type: question\ndifficulty: easy\nanswer-type: " + atype + "\nanswer: \" " + ans + "  \"\n"
+		case 1:
+			q.Padded = true
+			q.Frontmatter = "type: question\ndifficulty: easy\nanswer-type: " + atype + "\nanswer: |\n  " + ans + "\n"
+		default:
+			q.Frontmatter = "type: question\ndifficulty: easy\nanswer-type: " + atype + "\nanswer: \"" + ans + "\"\n"
+		}
 		if rapid.Bool().Draw(t, "sealed") {
 			ki := rapid.IntRange(0, len(ks)-1).Draw(t, "key")
 			q.Sealed, q.Public, q.Private = true, ks[ki].Public, ks[ki].Private
